@@ -36,8 +36,9 @@ pub enum Target {
 	Leaf(usize),
 	Unit(usize),
 	Coll(CollKind, Vec<MemberSpec>),
-	/// Poisonable<BoxedLockCollection<Vec<Member>>> locked through the Poisonable API
-	PoisColl(Vec<MemberSpec>),
+	/// Poisonable<BoxedLockCollection<Vec<Member>>> (kind Boxed / Ref) or
+	/// Poisonable<RetryingLockCollection<Vec<Member>>> (kind Retry) locked through the Poisonable API
+	PoisColl(CollKind, Vec<MemberSpec>),
 }
 
 #[derive(Clone, Copy, Debug, PartialEq, Eq, Hash)]
@@ -117,8 +118,9 @@ pub fn target_desc(t: &Target) -> String {
 			k.name(),
 			v.iter().map(member_desc).collect::<Vec<_>>().join(",")
 		),
-		Target::PoisColl(v) => format!(
-			"pois(boxed[{}])",
+		Target::PoisColl(k, v) => format!(
+			"pois({}[{}])",
+			if *k == CollKind::Retry { "retry" } else { "boxed" },
 			v.iter().map(member_desc).collect::<Vec<_>>().join(",")
 		),
 	}
@@ -176,7 +178,7 @@ pub fn shape_hash(p: &Program) -> u64 {
 				Target::Leaf(_) => 1,
 				Target::Unit(_) => 2,
 				Target::Coll(k, v) => 10 + *k as u64 * 10 + v.len() as u64,
-				Target::PoisColl(v) => 50 + v.len() as u64,
+				Target::PoisColl(k, v) => 50 + (*k == CollKind::Retry) as u64 * 7 + v.len() as u64,
 			};
 			h = hash64(h, k * 100 + a.api as u64 * 4 + a.mode as u64 * 2 + a.lent as u64);
 		}
@@ -210,7 +212,7 @@ pub fn target_readable(a: &ArenaSpec, t: &Target) -> bool {
 	match t {
 		Target::Leaf(i) => a.leaf_is_rw(*i),
 		Target::Unit(u) => a.unit_is_rw(*u),
-		Target::Coll(_, v) | Target::PoisColl(v) => v.iter().all(|m| member_readable(a, m)),
+		Target::Coll(_, v) | Target::PoisColl(_, v) => v.iter().all(|m| member_readable(a, m)),
 	}
 }
 
@@ -357,7 +359,7 @@ pub fn gen_acq(r: &mut Rng, a: &ArenaSpec, g: &GenCfg) -> Acq {
 		let mut used = Vec::new();
 		let members = gen_members(r, a, g, 0, &mut used);
 		if g.allow_pois && r.chance(1, 12) {
-			Target::PoisColl(members)
+			Target::PoisColl(if r.chance(1, 2) { CollKind::Retry } else { CollKind::Boxed }, members)
 		} else {
 			let k = if g.retry_bias && r.chance(1, 2) {
 				CollKind::Retry
@@ -495,7 +497,8 @@ pub fn enum_shapes(n: usize, fam: Fam, all_perms: bool) -> Vec<(ArenaSpec, Targe
 		for k in CollKind::ALL {
 			out.push((arena.clone(), Target::Coll(k, mem.clone())));
 		}
-		out.push((arena.clone(), Target::PoisColl(mem.clone())));
+		out.push((arena.clone(), Target::PoisColl(CollKind::Boxed, mem.clone())));
+		out.push((arena.clone(), Target::PoisColl(CollKind::Retry, mem.clone())));
 		// nestings: first j members form an inner collection
 		if n >= 1 {
 			for j in 1..=n {
